@@ -279,6 +279,19 @@ func c32Exec(t *testing.T, sc *gen.Scenario, trace bool) *harness.Outcome {
 				nat, errN := e.SrvCheck(ctx, s, rq)
 				cancel()
 				e.Run.Log("resp", fmt.Sprintf("r%d az=%v/%v native=%v/%v", i, az.GetDecision(), errA != nil, nat, errN != nil))
+				// both answers are judged against the reference first, so that a known engine defect is
+				// reported (and recognised) as such rather than as a disagreement of the two surfaces
+				if errA == nil {
+					e.JudgeCheck("authzen", rq, st, az.GetDecision(), nil, faulty)
+				} else {
+					e.JudgeCheck("authzen", rq, st, false, errA, faulty)
+				}
+				if e.Out.Violation == nil {
+					e.JudgeCheck("native", rq, st, nat, errN, faulty)
+				}
+				if e.Out.Violation != nil {
+					return
+				}
 				if errA == nil && errN == nil && az.GetDecision() != nat {
 					e.Violate("evaluation_differs_from_check", shapeSig(sc.Model, rq), "evaluation(%s %s %s)=%v but native check=%v", rq.User, rq.Rel, rq.Obj, az.GetDecision(), nat)
 					return
@@ -286,11 +299,6 @@ func c32Exec(t *testing.T, sc *gen.Scenario, trace bool) *harness.Outcome {
 				if (errA == nil) != (errN == nil) && !faulty && len(st.Unevaluable(rq.Ctx)) == 0 {
 					e.Violate("evaluation_error_mismatch", "", "evaluation(%s %s %s) err=%v, native err=%v", rq.User, rq.Rel, rq.Obj, errA, errN)
 					return
-				}
-				if errA == nil {
-					e.JudgeCheck("authzen", rq, st, az.GetDecision(), nil, faulty)
-				} else {
-					e.JudgeCheck("authzen", rq, st, false, errA, faulty)
 				}
 			case "listobjects":
 				ctx, cancel := reqCtx(i, ".az", 10*time.Second)
@@ -304,11 +312,17 @@ func c32Exec(t *testing.T, sc *gen.Scenario, trace bool) *harness.Outcome {
 				nat, errN := e.SrvListObjects(ctx, s, rq, false)
 				cancel()
 				e.Run.Log("resp", fmt.Sprintf("r%d az=%d/%v native=%d/%v", i, len(got), errA != nil, len(nat), errN != nil))
+				e.JudgeListObjects("authzen", rq, st, got, errA, faulty, 0, false)
+				if e.Out.Violation == nil {
+					e.JudgeListObjects("native", rq, st, nat, errN, faulty, 0, false)
+				}
+				if e.Out.Violation != nil {
+					return
+				}
 				if errA == nil && errN == nil && !faulty && len(st.Unevaluable(rq.Ctx)) == 0 && strings.Join(sorted(got), ",") != strings.Join(sorted(nat), ",") {
 					e.Violate("resource_search_differs", "", "resourcesearch(%s %s %s)=%v but native listobjects=%v", rq.User, rq.Rel, rq.Type, sorted(got), sorted(nat))
 					return
 				}
-				e.JudgeListObjects("authzen", rq, st, got, errA, faulty, 0, false)
 			case "listusers":
 				ctx, cancel := reqCtx(i, ".az", 10*time.Second)
 				tAz := time.Now()
@@ -324,13 +338,20 @@ func c32Exec(t *testing.T, sc *gen.Scenario, trace bool) *harness.Outcome {
 				nat, errN := e.SrvListUsers(ctx, s, rq)
 				cancel()
 				e.Run.Log("resp", fmt.Sprintf("r%d az=%d/%v native=%d/%v", i, len(got), errA != nil, len(nat), errN != nil))
-				azTrunc := azTruncated
-				if errA == nil && errN == nil && !faulty && !azTrunc && !e.Truncated && len(st.Unevaluable(rq.Ctx)) == 0 && strings.Join(sorted(got), ",") != strings.Join(sorted(nat), ",") {
+				natTruncated := e.Truncated
+				e.Truncated = azTruncated
+				e.JudgeListUsers("authzen", rq, st, got, errA, faulty)
+				if e.Out.Violation == nil {
+					e.Truncated = natTruncated
+					e.JudgeListUsers("native", rq, st, nat, errN, faulty)
+				}
+				if e.Out.Violation != nil {
+					return
+				}
+				if errA == nil && errN == nil && !faulty && !azTruncated && !natTruncated && len(st.Unevaluable(rq.Ctx)) == 0 && strings.Join(sorted(got), ",") != strings.Join(sorted(nat), ",") {
 					e.Violate("subject_search_differs", "", "subjectsearch(%s %s filter=%s)=%v but native listusers=%v", rq.Obj, rq.Rel, rq.Filter, sorted(got), sorted(nat))
 					return
 				}
-				e.Truncated = azTruncated
-				e.JudgeListUsers("authzen", rq, st, got, errA, faulty)
 			}
 			if e.Out.Violation != nil {
 				return
